@@ -526,7 +526,8 @@ PROPS = {
              'true_angular_from_alt_cosine (d) = 1 - arccos(min(s,1))/pi for every s > 0; s |-> d strictly decreasing on s > 0, hence surrogate <= '
              "surrogate' <-> metric <= metric' (true_angular: >=); sqrt(squared_euclidean) = euclidean and the order equivalence; at the vector level "
              'alternative_cosine = -log2(cosSim) and cosine = 1 - cosSim on <x,y> > 0, correction(surrogate) = kernel exactly on the live range for '
-             'cosine, dot, hellinger (non-negative vectors), true_angular (equal length) and jaccard (over the counts), with the order equivalences, and '
+             'cosine, dot, hellinger (non-negative vectors), true_angular (equal length) and jaccard (over the counts; disjoint non-empty supports: the '
+             'FLOAT32_MAX branch, alternative_jaccard_disjoint_finite), with the order equivalences, and '
              'for ALL x y 0 <= min(cosine,1) - correction(surrogate) <= 2^-FLOAT32_MAX; saturation stated exactly (1 - 2^-FLOAT32_MAX, sqrt of it, 1/2 + '
              'arcsin(eps)/pi; eps < 2^-1075 so it evaluates to the far end in float32/float64); the sparse correction ufuncs equal the dense ones '
              'outside the dead band |d| <= 1e-7 (return 0 inside; deviation <= 1e-7 resp. sqrt(1e-7)), and no float32 log2 value other than 0 falls '
@@ -538,7 +539,8 @@ PROPS = {
              'surrogate kernels are not translated); float rounding of pow / log2 / arccos is outside '
              'the theorems (ufunc sweep + tolerance); the sparse surrogate KERNELS are not modelled here: they compute the same real function of the '
              'accumulators that C08 proves equal to the dense ones (the sparse CORRECTIONS are modelled and proved); dense alternative_jaccard on '
-             'disjoint supports evaluates -log2(0) = +inf (IEEE) and is covered by the harness only; order across the saturation boundary needs s > '
+             'disjoint non-empty supports returns FLOAT32_MAX like its sparse twin (repository commit d428a58; before: -log2(0) = +inf, which no heap push accepts): modelled '
+             'and proved (alternative_jaccard_disjoint_finite: finite surrogate, corrected value within 2^-FLOAT32_MAX of jaccard = 1, order against live candidates); order across the saturation boundary needs s > '
              '2^-FLOAT32_MAX (always true for float32 data, not a statement over R); the true_angular surrogate path reports ~1/2 where the named kernel '
              'returns FLOAT32_MAX (recorded finding)',
      'explanation': 'theorems for every similarity s > 0 and all vectors; decide over the regenerated tables; model and real ufuncs on float32 inputs',
